@@ -133,6 +133,18 @@ def drive(MSM, seq, tau, noncorr, n, check_reverse=False, obj=None):
     REC.begin_case(case, cls=[f"L={min(len(seq), 8) if len(seq) <= 8 else '>8'}", f"noncorr={noncorr}",
                               f"tau_type={type(tau).__name__}"], sample=(len(seq) == 5 and tau == 2 and seq[0] == 1.0))
     arr = np.array(seq, dtype=float)
+    # the same trajectory in the forms callers hand over: float64 array, Python list, float32 array, integer array (if fully assigned),
+    # a non-contiguous view
+    form = (len(seq) * 7 + int(float(tau)) + (3 if noncorr else 0)) % 6
+    if obj is None:
+        if form == 1:
+            arr = [float(x) for x in seq]
+        elif form == 2:
+            arr = arr.astype(np.float32)
+        elif form == 3 and len(seq) and not np.isnan(arr).any():
+            arr = arr.astype(np.int64)
+        elif form == 4 and len(seq):
+            arr = np.repeat(arr, 2)[::2]
     try:
         # obj given: the same live MSM object is asked again (other mode / other tau) - results must not depend on earlier requests
         out = (obj if obj is not None else MSM(arr, total_num_cells=n)).get_one_tau_transition_matrix(tau, noncorrelated_windows=noncorr)
@@ -145,7 +157,7 @@ def drive(MSM, seq, tau, noncorr, n, check_reverse=False, obj=None):
         REC.nontrivial_case()
     if check_reverse and not noncorr and R is not None:
         try:
-            out2 = MSM(arr[::-1].copy(), total_num_cells=n).get_one_tau_transition_matrix(tau, noncorrelated_windows=False)
+            out2 = MSM(np.array(seq, dtype=float)[::-1].copy(), total_num_cells=n).get_one_tau_transition_matrix(tau, noncorrelated_windows=False)
             R2 = out2.toarray()
             REC.check("C12.reversal_invariance", R.shape == R2.shape and np.allclose(R, R2, rtol=1e-12, atol=1e-14),
                       lambda: {"forward": R, "reversed": R2})
